@@ -7,6 +7,7 @@ package harness
 import (
 	"bufio"
 	"bytes"
+	"errors"
 	"fmt"
 	"io"
 	"os"
@@ -126,6 +127,7 @@ func decideC05(c c05Case) Verdict {
 	wantOK := allValid && seedOK
 
 	readers := make([]io.Reader, len(c.Pieces))
+	readFails := false
 	const preamble = "SAVE-FILE-HEADER v2\ntitle: NotPartOfTheScript\n---\n"
 	for i, p := range c.Pieces {
 		kind := 0
@@ -167,6 +169,19 @@ func decideC05(c c05Case) Verdict {
 				pw.Close()
 			}(p)
 			readers[i] = pr
+		case 8:
+			// a reader that fails (not with io.EOF) behind the last complete node, or half-way: the script cannot be loaded
+			cut := strings.LastIndex(p, "===\n")
+			if cut >= 0 {
+				cut += 4
+			} else {
+				cut = len(p) / 2
+			}
+			if cut >= len(p) {
+				cut = len(p) * 2 / 3
+			}
+			readers[i] = io.MultiReader(strings.NewReader(p[:cut]), iotest.ErrReader(errInjectedRead))
+			readFails = true
 		default:
 			readers[i] = strings.NewReader(p)
 		}
@@ -182,6 +197,12 @@ func decideC05(c c05Case) Verdict {
 	}()
 	if panicked != nil {
 		return failf("NewDialogueRunner panicked: %v", panicked)
+	}
+	if readFails {
+		if err == nil {
+			return failf("a reader failed with %q in the middle of the input, yet a runner was created from what had been read so far", errInjectedRead)
+		}
+		return Verdict{NonTrivial: true, Classes: []string{"reader-fails"}}
 	}
 	if (dr == nil) == (err == nil) {
 		return failf("NewDialogueRunner returned runner=%v and err=%v: exactly one must be set", dr != nil, err)
@@ -309,10 +330,12 @@ func renderC05(c c05Case) any {
 	return map[string]any{"kind": c.Kind, "seed": c.Seed, "pieces": c.Pieces}
 }
 
+var errInjectedRead = errors.New("connection reset while reading the script")
+
 // withReaderKinds draws, for a third of the cases, the kind of reader that delivers each piece.
 func withReaderKinds(t *rapid.T, c c05Case) c05Case {
 	if rapid.IntRange(0, 2).Draw(t, "readerkinds") == 0 {
-		c.Readers = rapid.SliceOfN(rapid.IntRange(0, 7), len(c.Pieces), len(c.Pieces)).Draw(t, "kinds")
+		c.Readers = rapid.SliceOfN(rapid.IntRange(0, 8), len(c.Pieces), len(c.Pieces)).Draw(t, "kinds")
 	}
 	return c
 }
@@ -472,7 +495,7 @@ func genC05Constructed(t *rapid.T) c05Case {
 			}
 		}
 		pick := func(xs []int, label string) int { return xs[rapid.IntRange(0, len(xs)-1).Draw(t, label)] }
-		edit := rapid.SampledFrom([]string{"mixed-indentation", "mixed-indentation", "drop-endif", "extra-endif", "unclosed-if", "drop-command-end", "drop-closing-brace", "drop-node-end", "stray-else", "split-node-end", "split-endif"}).Draw(t, "edit")
+		edit := rapid.SampledFrom([]string{"mixed-indentation", "mixed-indentation", "drop-endif", "extra-endif", "unclosed-if", "drop-command-end", "drop-closing-brace", "drop-node-end", "stray-else", "split-node-end", "split-endif", "node-end-inside-block", "node-end-inside-block"}).Draw(t, "edit")
 		// characters that are not white space and not part of any structural token: inside one they break it
 		intruder := rapid.SampledFrom([]string{"\ufeff", "\u200b", "x", ".", "\u00ad", "é", "\u2060"}).Draw(t, "intruder")
 		done := false
@@ -511,6 +534,32 @@ func genC05Constructed(t *rapid.T) c05Case {
 		case edit == "drop-node-end" && len(ends) > 0:
 			lines[ends[len(ends)-1]] = ""
 			done = true
+		case edit == "node-end-inside-block" && len(ends) > 0:
+			// the node's end marker written at the indentation of the (indented) statement before it: the block is still open
+			type cand struct {
+				end int
+				ind string
+			}
+			var cands []cand
+			for _, i := range ends {
+				j := i - 1
+				for j >= 0 && (strings.TrimSpace(lines[j]) == "" || strings.HasPrefix(strings.TrimSpace(lines[j]), "//")) {
+					j--
+				}
+				if j < 0 {
+					continue
+				}
+				prev := lines[j]
+				ind := prev[:len(prev)-len(strings.TrimLeft(prev, " \t"))]
+				if ind != "" && !strings.HasPrefix(strings.TrimSpace(prev), "<<endif") && !strings.HasPrefix(strings.TrimSpace(prev), "<<else") {
+					cands = append(cands, cand{i, ind})
+				}
+			}
+			if len(cands) > 0 {
+				k := cands[rapid.IntRange(0, len(cands)-1).Draw(t, "which")]
+				lines[k.end] = k.ind + strings.TrimLeft(lines[k.end], " \t")
+				done = true
+			}
 		case edit == "split-node-end" && len(ends) > 0:
 			// the last node's end marker with a foreign character inside: not an end marker, the body never ends
 			i := ends[len(ends)-1]
@@ -568,6 +617,17 @@ var c05Seq = Register(Prop[c05SeqCase]{
 	ID: "C05", Name: "sequence",
 	Gen: func(t *rapid.T) c05SeqCase {
 		var c c05SeqCase
+		if rapid.IntRange(0, 5).Draw(t, "failingreads") == 0 {
+			// many loads whose reader fails, then a valid script: whatever a failed read leaves behind (a slot, a lock, a pooled
+			// object) adds up
+			n := rapid.SampledFrom([]int{3, 15, 16, 17, 33, 70}).Draw(t, "failures")
+			base := genBaseScript(t)
+			for i := 0; i < n; i++ {
+				c.Loads = append(c.Loads, c05Case{Pieces: []string{base}, Seed: "a", Kind: "reader fails", Readers: []int{8}})
+			}
+			c.Loads = append(c.Loads, c05Case{Pieces: []string{genBaseScript(t)}, Seed: "z9", Kind: "valid", Expect: "accept"})
+			return c
+		}
 		n := rapid.IntRange(1, 3).Draw(t, "before")
 		for i := 0; i < n; i++ {
 			l := genC05(t)
